@@ -187,6 +187,9 @@ def part_constants(ctx, rng, work, events, meta, quick):
     sym = dict(scenarios.CONSTANTS)
     sym.update({"rMax": "rMin+14.4", "vMax": "2*3.66", "deltaR": "4.0*deltaRN0/deltaRTi", "zMax": "R0*2*pi", "npts": [6, 8, 8, 8]})
     sources.append(("chained symbolic expressions", json.dumps(sym)))
+    # a file that gives rp itself (legal: rp is a public constant and setupCylindricalGrid accepts it as keyword)
+    c2 = get_constants(scenarios.write_constants(os.path.join(work, "c_rp.json"), rp=5.5))
+    sources.append(("file with explicit rp", json.dumps(dict(scenarios.CONSTANTS, rp=5.5))))
     nperm = 12 if quick else 120
     for name, text in sources:
         data = json.loads(text)
@@ -310,6 +313,16 @@ def run(ctx):
         r = ctx.tlc("RestartMC", cfg, what="all splits of <=%d steps, save interval %d" % (7 if quick else 10, S), workers=4)
         if r.violated:
             raise Machinery("Restart.tla violates %s: %s" % (r.violated, r.trace_text))
+    # the constants parser as a worklist over every key order (ConstParse): complete, order independent, terminating, and an
+    # explicitly given rp survives the rMin/rMax setter side effects
+    cp = "SPECIFICATION Spec\nCONSTANTS Keys <- %s  Deps <- %s  HasRp = %s\nINVARIANT NeverFails\nINVARIANT Complete\nINVARIANT OrderIndependent\nINVARIANT RpKept\n"
+    cp += "VIEW NoOrderView\n" if quick else "PROPERTY Terminates\n"
+    r1 = ctx.tlc("ConstParse", cp % ("K1", "D1", "FALSE"), what="constants parser, every order of 8 keys with chained expressions", workers=16, big=True, timeout=3600)
+    if r1.violated:
+        raise Machinery("ConstParse.tla violates %s for files without explicit rp: %s" % (r1.violated, (r1.trace_text or "")[:800]))
+    r2 = ctx.tlc("ConstParse", cp % ("K2", "D2", "TRUE"), what="constants parser, every order of 9 keys incl. an explicit rp", workers=16, big=True, timeout=3600)
+    if r2.violated:
+        raise Machinery("ConstParse.tla violates %s for files with explicit rp: %s" % (r2.violated, (r2.trace_text or "")[:800]))
     ctx.exhaustive = True
     work = tempfile.mkdtemp(prefix="c18_")
     events, meta = [], []
@@ -336,6 +349,7 @@ def run(ctx):
                 sig["seven_digits"] = bool(max(m["times"]) >= 10 ** 6)
             if e["k"] == "const":
                 sig["diff"] = ",".join(sorted(m.get("diff", [])))
+                sig["explicit_rp"] = "explicit rp" in str(m.get("source"))
             ctx.violation(sig, "%s rejected by C18Trace clauses %s; observed %s" % (
                 m, rej[j], {k: v for k, v in e.items() if k not in ("block", "data")}), {"event": {k: v for k, v in e.items() if k not in ("block", "data")}, "meta": m})
     ctx.sample({"meta": meta[0]})
